@@ -16,6 +16,8 @@ import (
 
 	"github.com/ChainSafe/sygma-relayer/chains"
 	"github.com/ChainSafe/sygma-relayer/chains/btc"
+	btcExecutor "github.com/ChainSafe/sygma-relayer/chains/btc/executor"
+	evmExecutor "github.com/ChainSafe/sygma-relayer/chains/evm/executor"
 	btcListener "github.com/ChainSafe/sygma-relayer/chains/btc/listener"
 	"github.com/ChainSafe/sygma-relayer/chains/evm/calls/events"
 	"github.com/ChainSafe/sygma-relayer/chains/evm/listener/depositHandlers"
@@ -93,6 +95,22 @@ func runLifetimes(kind string, conf, k int64, nh int, cfgStart, flags, stored0, 
 		if onCall != nil {
 			li := li
 			e.onCall = func(idx int, s, end *big.Int) { onCall(li, idx, s, end) }
+		}
+		// the chain config's *big.Int values are shared between the listener and the retry message handler, as app.Run
+		// shares them; a script can have retry requests handled between scan steps (`…:s@<height>`)
+		base := strings.TrimSuffix(kind, "+")
+		if base != "sub" {
+			cp := big.NewInt(conf)
+			e.confPtr = cp
+			head := "1000000"
+			switch base {
+			case "btc":
+				rh := btcExecutor.NewRetryMessageHandler(&c04BtcProcessor{}, c04BtcFetcher{head}, cp, c04PropStore{}, make(chan []*message.Message, 4))
+				e.onRetry = func(h string) { _, _ = rh.HandleMessage(retryMsg(h)) }
+			case "evm":
+				rh := evmExecutor.NewRetryMessageHandler(&c04Processor{}, c04Latest{head}, c04PropStore{}, cp, make(chan []*message.Message, 4))
+				e.onRetry = func(h string) { _, _ = rh.HandleMessage(retryMsg(h)) }
+			}
 		}
 		rec := &startRecorder{inner: e.build(), env: e}
 		ctx, cancel := context.WithCancel(context.Background())
@@ -379,7 +397,11 @@ func genLifeReal(g *G, kind string, k int64, nh int, head int64, maxRounds int) 
 		}
 		reps := 1
 		if f[1] != "n" && !strings.HasPrefix(f[1], "p") {
-			f[1] += g.Pick([]string{"a", "b", "b"}) + g.Pick([]string{"g", "t", "t", "w", "u", "n", "c"})
+			kinds := []string{"g", "t", "t", "w", "u", "n", "c", "r", "r", "R", "W", "M"}
+			if k >= 2 && kind != "btc" {
+				kinds = append(kinds, "l", "l", "L") // a size limit only exists for ranges of several blocks
+			}
+			f[1] += g.Pick([]string{"a", "b", "b"}) + g.Pick(kinds)
 			if len(f) == 3 {
 				reps = 1 + g.Intn(4)
 			}
@@ -409,6 +431,9 @@ func genLife(g *G, kind string, k int64, nh int, head int64, maxRounds int, allo
 		st := "s"
 		if g.Intn(6) == 0 {
 			st = "x"
+		}
+		if kind != "sub" && g.Intn(7) == 0 {
+			st += "@" + itoa64(int64(g.Intn(40))) // a retry request handled between two scan steps
 		}
 		r := hs + ":" + fail + ":" + st
 		if allowCrash && j == n-1 && g.Intn(2) == 0 {
@@ -558,8 +583,14 @@ func genC05(g *G) {
 		nh := realStackSize(kind)
 		for idx := 0; idx < nh; idx++ {
 			for _, pt := range []string{"a", "b"} {
-				for _, ek := range []string{"g", "t", "w", "u", "n", "c"} {
+				for _, ek := range []string{"g", "t", "w", "u", "n", "c", "l", "L", "r", "R", "W", "M"} {
 					for reps := 1; reps <= 4; reps++ {
+						if reps > 1 && strings.Contains("lLRWM", ek) && !g.Thorough() {
+							continue
+						}
+						if kind == "btc" && (ek == "l" || ek == "L") {
+							continue // single-block reads have no size limit
+						}
 						if !g.Thorough() && reps == 2 {
 							continue
 						}
@@ -607,6 +638,23 @@ func genC05(g *G) {
 			ls = append(ls, l)
 		}
 		g.Emit("lifereal", kind, "1", itoa64(k), itoa(nh), itoa64(cfgStart), g.Pick([]string{"-", "-", "-", "F"}), stored0, itoa64(head), strings.Join(ls, "|"))
+	}
+	// a retry-by-height request handled between scan steps by the retry message handler that shares the chain config
+	// (same *big.Int values) with the listener, as app.Run wires them; fake and real handler stacks
+	for _, kind := range []string{"btc", "evm"} {
+		for _, op := range []string{"life", "lifereal"} {
+			for _, h := range []string{"0", "4", "7", "100"} {
+				for conf := int64(1); conf <= 3; conf++ {
+					k := "1"
+					if kind == "evm" {
+						k = "2"
+					}
+					hd := "40"
+					l := hd + ":n:s;" + hd + ":n:s@" + h + ";" + hd + ":n:s;" + hd + ":n:s@" + h + ";" + hd + ":n:s;" + hd + ":n:s"
+					g.Emit(op, kind, itoa64(conf), k, "1", "3", "-", "none", "0", l+"|"+hd+":n:s;"+hd+":n:s")
+				}
+			}
+		}
 	}
 	// random long scripts over several lifetimes
 	for i := 0; i < g.Count(1200, 40000); i++ {
